@@ -134,6 +134,13 @@ impl<VM: VMBinding> PageResource<VM> for FreeListPageResource<VM> {
                 }
             }
         };
+        #[cfg(feature = "verif")]
+        crate::util::verif::c28::log(
+            &self.common,
+            crate::util::verif::c28::GRANT,
+            rtn,
+            required_pages,
+        );
         Result::Ok(PRAllocResult {
             start: rtn,
             pages: required_pages,
@@ -266,6 +273,13 @@ impl<VM: VMBinding> FreeListPageResource<VM> {
         }
 
         let rtn = sync.start + conversions::pages_to_bytes(page_offset as _);
+        #[cfg(feature = "verif")]
+        crate::util::verif::c28::log(
+            &self.common,
+            crate::util::verif::c28::CHUNK,
+            rtn,
+            PAGES_IN_CHUNK,
+        );
         Result::Ok(PRAllocResult {
             start: rtn,
             pages: PAGES_IN_CHUNK,
@@ -289,6 +303,13 @@ impl<VM: VMBinding> FreeListPageResource<VM> {
 
         if !region.is_zero() {
             let region_start = conversions::bytes_to_pages_up(region - sync.start);
+            #[cfg(feature = "verif")]
+            crate::util::verif::c28::log(
+                &self.common,
+                crate::util::verif::c28::GROW,
+                region,
+                required_chunks * PAGES_IN_CHUNK,
+            );
             let region_end = region_start + (required_chunks * PAGES_IN_CHUNK) - 1;
             sync.free_list.set_uncoalescable(region_start as _);
             sync.free_list.set_uncoalescable(region_end as i32 + 1);
@@ -323,6 +344,13 @@ impl<VM: VMBinding> FreeListPageResource<VM> {
         }
         /* now return the address space associated with the chunk for global reuse */
 
+        #[cfg(feature = "verif")]
+        crate::util::verif::c28::log(
+            &self.common,
+            crate::util::verif::c28::SHRINK,
+            chunk,
+            num_chunks * PAGES_IN_CHUNK,
+        );
         self.common.release_discontiguous_chunks(chunk);
     }
 
@@ -339,6 +367,13 @@ impl<VM: VMBinding> FreeListPageResource<VM> {
         let mut sync = self.sync.lock().unwrap();
         let page_offset = conversions::bytes_to_pages_up(first - sync.start);
         let pages = sync.free_list.size(page_offset as _);
+        #[cfg(feature = "verif")]
+        crate::util::verif::c28::log(
+            &self.common,
+            crate::util::verif::c28::RELEASE,
+            first,
+            pages as usize,
+        );
         // if (VM.config.ZERO_PAGES_ON_RELEASE)
         //     VM.memory.zero(false, first, Conversions.pagesToBytes(pages));
         debug_assert!(pages as usize <= self.common.accounting.get_committed_pages());
